@@ -32,6 +32,7 @@ import (
 
 var allNames = []string{"/h/n1", "/h/n2", "/g/n3", "/g/n4"}
 var dirs = []string{"/h", "/g"}
+var dumpUniverse = []string{"/h", "/g", "/h-moved", "/g-moved", "/h/n1", "/h/n2", "/g/n3", "/g/n4", "/h-moved/n1", "/h-moved/n2", "/g-moved/n3", "/g-moved/n4"}
 
 type op struct {
 	Kind string `json:"kind"` // plain link unlink write rename rmdir
@@ -116,8 +117,11 @@ func (m *model) kindOf(n string) string {
 	case len(m.links[s.Link].Names) == 1:
 		return "linked-last"
 	}
-	return "linked-not-last"
+	return "linked"
 }
+
+// coarse strips the "-last" refinement (kept in the detail, not in the signature).
+func coarse(k string) string { return strings.TrimSuffix(k, "-last") }
 
 // apply mutates the model as the statement prescribes; ok=false: the op is not applicable.
 func (m *model) apply(o op) (ok bool, class string) {
@@ -174,6 +178,25 @@ func (m *model) apply(o op) (ok bool, class string) {
 			m.links[st.Link].Names[o.B] = true
 		}
 		return true, class
+	case "mvdir":
+		// the directory is renamed away and back (two AtomicRenameEntry calls): every name below it
+		// is renamed twice and must come back as the same name of the same identity
+		any, linked := false, false
+		for _, n := range allNames {
+			if strings.HasPrefix(n, o.A+"/") && m.names[n] != nil {
+				any = true
+				if m.names[n].Link != 0 {
+					linked = true
+				}
+			}
+		}
+		if !any {
+			return false, ""
+		}
+		if linked {
+			return true, "contains-linked"
+		}
+		return true, "plain-only"
 	case "rmdir":
 		any, linked := false, false
 		for _, n := range allNames {
@@ -220,10 +243,10 @@ func nameOf(p string) string   { return p[strings.LastIndex(p, "/")+1:] }
 
 func (w *world) renew() {
 	if w.fw != nil {
-		w.fw.Close()
-		_ = os.RemoveAll(w.fw.Dir)
+		w.fw.FreshStore()
+	} else {
+		w.fw = lib.NewFilerWorld(w.r, w.kind, w.bm)
 	}
-	w.fw = lib.NewFilerWorld(w.r, w.kind, w.bm)
 	w.m = newModel()
 	w.sinceRenew = 0
 	w.usedKeys = nil
@@ -236,7 +259,7 @@ func (w *world) startCase(nops int) {
 		w.renew()
 		return
 	}
-	d := w.fw.Dump(append(append([]string{}, allNames...), dirs...))
+	d := w.fw.Dump(dumpUniverse)
 	var keys [][]byte
 	for _, l := range w.m.links {
 		keys = append(keys, l.Id)
@@ -329,6 +352,14 @@ func (w *world) exec(o op) string {
 		if err != nil {
 			return err.Error()
 		}
+	case "mvdir":
+		tmp := o.A + "-moved"
+		if _, err := fs.AtomicRenameEntry(ctx, &filer_pb.AtomicRenameEntryRequest{OldDirectory: "/", OldName: nameOf(o.A), NewDirectory: "/", NewName: nameOf(tmp)}); err != nil {
+			return "away: " + err.Error()
+		}
+		if _, err := fs.AtomicRenameEntry(ctx, &filer_pb.AtomicRenameEntryRequest{OldDirectory: "/", OldName: nameOf(tmp), NewDirectory: "/", NewName: nameOf(o.A)}); err != nil {
+			return "back: " + err.Error()
+		}
 	case "rmdir":
 		resp, err := fs.DeleteEntry(ctx, &filer_pb.DeleteEntryRequest{Directory: parentOf(o.A) + "/", Name: nameOf(o.A), IsDeleteData: o.Mode == "data", IsRecursive: true})
 		if err != nil {
@@ -407,7 +438,7 @@ func (w *world) verify() (*problem, map[string]interface{}) {
 		sort.Strings(names)
 		if len(names) == 0 {
 			if err != filer.ErrKvNotFound {
-				return &problem{"record-present-without-names", fmt.Sprintf("link identity %d has no name left but its KV record exists (counter %d)", id, rec.HardLinkCounter)}, view
+				return &problem{"counter-too-high", fmt.Sprintf("link identity %d has no name left but its KV record still exists (counter %d)", id, rec.HardLinkCounter)}, view
 			}
 			continue
 		}
@@ -474,7 +505,7 @@ func (w *world) step(o op) (bool, bool) {
 	w.stats[o.Kind+"."+class]++
 	r.Count("ops_applied", 1)
 	p, view := w.verify()
-	if p == nil {
+	if p == nil || p.class == "listing-shows-stale-copy" {
 		if errText != "" {
 			// the request reported an error but every reader sees what the statement prescribes
 			w.stats[o.Kind+".error-but-consistent"]++
@@ -491,14 +522,30 @@ func (w *world) step(o op) (bool, bool) {
 				r.Count("writes_through_linked_name", 1)
 			}
 		}
-		return true, false
+		if p == nil {
+			return true, false
+		}
 	}
-	sig := lib.Sig{"op": o.Kind, "class": p.class, "input": class}
+	sig := lib.Sig{"op": o.Kind, "class": p.class}
+	for _, part := range strings.Split(class, ",") {
+		switch {
+		case strings.HasPrefix(part, "src-"):
+			sig["src"] = coarse(part[4:])
+		case strings.HasPrefix(part, "dst-"):
+			sig["dst"] = coarse(part[4:])
+		default:
+			sig["target"] = coarse(part)
+		}
+	}
 	if o.Mode != "" {
 		sig["mode"] = o.Mode
 	}
 	unlisted := r.Violation(sig, map[string]interface{}{"msg": p.msg, "store": w.kind, "history": w.hist, "op": o, "input_class": class,
 		"op_error": errText, "readers_see": view})
+	if !unlisted && p.class == "listing-shows-stale-copy" {
+		// listed finding about a view only: FindEntry and the KV record agree with the model, go on
+		return true, false
+	}
 	return false, !unlisted
 }
 
@@ -524,7 +571,7 @@ func alphabet() []op {
 		{Kind: "unlink", A: "/h/n1", Mode: "mount"}, {Kind: "unlink", A: "/h/n2", Mode: "mount"}, {Kind: "unlink", A: "/h/n1", Mode: "http"}, {Kind: "unlink", A: "/g/n3", Mode: "mount"},
 		{Kind: "write", A: "/h/n1", Mode: "create"}, {Kind: "write", A: "/h/n2", Mode: "update"}, {Kind: "write", A: "/g/n3", Mode: "create"},
 		{Kind: "rename", A: "/h/n1", B: "/g/n3"}, {Kind: "rename", A: "/h/n2", B: "/g/n3"}, {Kind: "rename", A: "/g/n3", B: "/h/n1"}, {Kind: "rename", A: "/h/n1", B: "/g/n4"},
-		{Kind: "rmdir", A: "/h", Mode: "data"}, {Kind: "rmdir", A: "/g", Mode: "nodata"},
+		{Kind: "rmdir", A: "/h", Mode: "data"}, {Kind: "rmdir", A: "/g", Mode: "nodata"}, {Kind: "mvdir", A: "/h"},
 	}
 }
 
@@ -554,6 +601,8 @@ func randomOp(rng *rand.Rand, m *model) op {
 		return op{Kind: "write", A: existing(), Mode: []string{"create", "update"}[rng.Intn(2)]}
 	case x < 93:
 		return op{Kind: "rename", A: existing(), B: pick()}
+	case x < 96:
+		return op{Kind: "mvdir", A: dirs[rng.Intn(2)]}
 	default:
 		return op{Kind: "rmdir", A: dirs[rng.Intn(2)], Mode: []string{"data", "data", "nodata"}[rng.Intn(3)]}
 	}
@@ -673,7 +722,7 @@ func runBatch(r *lib.Run, mode, kind string, shard, nshards, sampleOneIn int) {
 
 func main() {
 	r := lib.Start("C21", "exploration")
-	r.SetRule("histories of plain-create / link (UpdateEntry old + CreateEntry new, as Dir.Link) / unlink (mount: IsDeleteData=counter<=1, http: true) / write through one name (CreateEntry or UpdateEntry) / AtomicRenameEntry / overwrite of a linked name by a plain file or by a name of another identity / recursive directory delete, over 4 names in 2 directories with link identities created on demand, on a real Filer over leveldb/leveldb2/leveldb3; after every op each name is read (FindEntry + parent listing) and each identity's KV record decoded and compared with the model. distinct = distinct (store, op sequence); non-trivial = at least one applicable op executed")
+	r.SetRule("histories of plain-create / link (UpdateEntry old + CreateEntry new, as Dir.Link) / unlink (mount: IsDeleteData=counter<=1, http: true) / write through one name (CreateEntry or UpdateEntry) / AtomicRenameEntry / overwrite of a linked name by a plain file or by a name of another identity / recursive directory delete / directory renamed away and back, over 4 names in 2 directories with link identities created on demand, on a real Filer over leveldb/leveldb2/leveldb3; after every op each name is read (FindEntry + parent listing) and each identity's KV record decoded and compared with the model. distinct = distinct (store, op sequence); non-trivial = at least one applicable op executed")
 	r.Assume("content and attributes compared: chunk file ids, mtime (seconds), file size, extended attribute; the link counter a client writes is the one it read plus one (single client)")
 	r.Assume("renaming one name of an identity onto another name of the same identity, and linking a name onto itself, are not generated (POSIX defines them as no-ops; the statement does not say)")
 
